@@ -289,7 +289,9 @@ let () =
                 | StDone, [e] -> (match eval_json_like pf_oracle e with Some jv -> canon_j jv | None -> "ERROR")
                 | _ -> "ERROR") in
              let w = if j = "1" then items_str (save_text is_print v) else "-" in
-             let m = "P=" ^ items_str text ^ " ;; R=" ^ r ^ " ;; EV=" ^ ev ^ " ;; W=" ^ w ^ (if !bad_tok then " ;; BADTOK" else "") in
+             let (st2, ex2) = read_repl text in
+             let rp = String.concat " | " (status_str st2 :: List.map canon_sexp ex2) in
+             let m = "P=" ^ items_str text ^ " ;; R=" ^ r ^ " ;; RP=" ^ rp ^ " ;; EV=" ^ ev ^ " ;; W=" ^ w ^ (if !bad_tok then " ;; BADTOK" else "") in
              let cv = canon_value v in
              let spec = "R=" ^ (if has_hash v then "-" else "D | " ^ cv) ^ " ;; E=" ^ (if j = "1" then cv else "-") in
              (m, spec)
